@@ -250,6 +250,38 @@ def build_traces(path, tier, seed):
             add({"kind": "fas", "dt": enc(dt), "x": enc_seq(x), "N": int(next_pow2(n)), "fas": enc_cseq(hist.fa_spectrum), "freqs": enc_seq(hist.fa_freqs),
                  "objfas": enc_cseq([]), "objfreqs": enc_seq([])},
                 {"kind": "fas", "n": n, "N": int(next_pow2(n)), "variant": "object spectrum re-read after %s was applied to it" % fn, "dt": dt, "shape": shape})
+    # the object's spectrum (and dominant period) was read; then the record was changed IN PLACE through the public API -- the array
+    # handed out by .values edited and handed back, a residual correction, a re-basing -- and the spectrum is read again
+    for j in range(6 if tier == "quick" else 30):
+        n = int(rng.integers(12, 90))
+        dt = float(rng.choice([0.01, 0.02, 0.005]))
+        x, shape = gen.record(rng, n, amp=1.0)
+        x = np.array(x) + 0.3 * np.arange(n) / n + 0.2
+        o = eqsig.AccSignal(x.copy(), dt)
+        _ = (np.array(o.fa_spectrum), o.fa_freqs, o.smooth_fa_spectrum)
+        how = j % 6
+        with warnings.catch_warnings():
+            warnings.simplefilter("ignore")
+            if how == 0:
+                v_ = o.values
+                v_[n // 2:] *= -2.0
+                o.reset_values(v_)
+            elif how == 1:
+                o.set_zero_residual_velocity()
+            elif how == 2:
+                o.set_zero_residual_displacement()
+            elif how == 3:
+                o.set_zero_residual_displacement_and_velocity()
+            elif how == 4:
+                o.rebase_displacement()
+            else:
+                v_ = o.values
+                v_ -= float(np.mean(v_))
+                o.reset_values(v_)
+        xx = np.asarray(o.values, dtype=float)
+        add({"kind": "fas", "dt": enc(dt), "x": enc_seq(xx), "N": int(next_pow2(n)), "fas": enc_cseq(o.fa_spectrum), "freqs": enc_seq(o.fa_freqs),
+             "objfas": enc_cseq([]), "objfreqs": enc_seq([])},
+            {"kind": "fas", "n": n, "N": int(next_pow2(n)), "variant": "object spectrum re-read after an in-place change of the record (%d)" % how, "dt": dt, "shape": shape})
     write_ndjson(path, recs)
     return meta
 
